@@ -2,8 +2,10 @@
 C09 — every basis projection and operator equals its defining Abel integral.
 
 proofs : lean/PyAbel/Props/C09.lean (Daun degree 0 and the onion-peeling weights are, for all indices, the line-of-sight
-         integrals of the rectangular shells; built on Lemmas/Abel.lean `abel_shell`)
+         integrals of the rectangular shells — Lemmas/Abel.lean `abel_shell`; Daun degree 1 entries are, for all indices, the
+         integrals of the hat functions — Lemmas/AbelRamp.lean `abel_ramp`, by the fundamental theorem of calculus)
 K      : Lean matrices (onionW, twoPointD, threePointD, daun0, daun1, daun2) vs the arrays the implementation builds
+         + through get_bs_cached after other requests (memory and disk): the arrays handed out are the generators' arrays
 S      : quadrature of the defining integral (scipy.integrate.quad on the smooth line-of-sight form
          2∫₀^∞ f(√(x²+z²)) dz; independent of PyAbel) for basex χ_k (σ ∈ (0.5, 3]), daun degrees 0-3 (degree 3: Abel of the
          clamped cubic Hermite spline through the data), rbasex p_{R;n} (orders 0-8), and the inverse-Abel integrals of the
